@@ -27,10 +27,13 @@ def client_error(code, op, status=400, msg=""):
 
 
 class _Body:
-    def __init__(self, data):
+    def __init__(self, data, on_read=None):
         self._b = io.BytesIO(data)
+        self._on_read = on_read
 
     def read(self, n=None):
+        if self._on_read is not None:
+            self._on_read()  # may raise: the connection dropped while the body was streaming
         return self._b.read() if n is None or n < 0 else self._b.read(n)
 
     def close(self):
@@ -116,7 +119,8 @@ class FakeS3:
         else:
             self.log.append(("get", Key, {"ok": True, "body": body}))
             data = body
-        resp = {"Body": _Body(data), "ETag": o["etag"], "ContentLength": len(data), "LastModified": o["mtime"]}
+        resp = {"Body": _Body(data, (lambda: self._h("body", "get", Key, req)) if self.hook is not None else None), "ETag": o["etag"],
+                "ContentLength": len(data), "LastModified": o["mtime"]}
         self._h("after", "get", Key, req)
         return resp
 
